@@ -9,6 +9,19 @@ ID = "C04"
 PROPS_FILE = "Props/C04.v"
 COQ_TARGETS = ["Harness/H04.vo"]
 ALLOWED_AXIOMS = []
+# second tie (translator): coq/Gen/Core.v is regenerated from the source text of C.REPO on every run and
+# coq/Tie/T04.v proves generated definition = hand model (harness/translate/py2coq_core.py)
+EXTRA_PROPS = ["Tie/T04.v"]
+
+
+def prebuild(ctx):
+    import os
+    import sys
+    sys.path.insert(0, os.path.join(C.VERIF, "harness", "translate"))
+    import py2coq_core
+    py2coq_core.prebuild(ctx, C, ["nondominated_sort_cmp"])
+
+
 META = {
     "level_text": "Machine-checked proof (Coq) about literal models of nondominated_sort, crowding_distance, filters.truncate/matches/unique, "
                   "nondominated_sort_cmp/truncate/split/prune and truncate_fitness: rank 0 = exactly the non-dominated members and rank r+1 = exactly those "
